@@ -9,6 +9,7 @@ import (
 	"math/big"
 	"strings"
 	"testing"
+	"time"
 
 	sdkmath "cosmossdk.io/math"
 	sdk "github.com/cosmos/cosmos-sdk/types"
@@ -118,6 +119,7 @@ func TestC15_TaxAndLimits(t *testing.T) {
 		var log []string
 		fracTax, edgeSend, failBetween, taxChanged, cancelAfterTaxChange := false, false, false, false, false
 		limitReissued := false
+		batchTimedOut := false
 		accepted, lastFailed := 0, false
 		known := map[uint64]bool{}
 
@@ -153,6 +155,20 @@ func TestC15_TaxAndLimits(t *testing.T) {
 				rate, _ = new(big.Rat).SetString(rateStr)
 				taxChanged = true
 				log = append(log, fmt.Sprintf("h%d:tax(%s,exempt=%d)", b.H, rateStr, taxExempt))
+			}
+			if len(pool) > 0 && rapid.IntRange(0, 9).Draw(t, "batchAndTimeout?") == 0 {
+				// the pooled transfers are put into a batch (next multiple of 50), the batch is not executed and times out
+				// (10 minutes) and the end blocker releases them into the pool again - with the tax recorded at send time
+				b.JumpTo((b.H/50 + 1) * 50)
+				b.EndBlock()
+				batches, _ := k.GetOutgoingTxBatches(b.Ctx())
+				b.PassTime(11 * time.Minute)
+				b.EndBlock()
+				left, _ := k.GetOutgoingTxBatches(b.Ctx())
+				log = append(log, fmt.Sprintf("h%d:batchAndTimeout(batches %d->%d)", b.H, len(batches), len(left)))
+				if len(batches) > 0 && len(left) == 0 {
+					batchTimedOut = true
+				}
 			}
 			if hasLimit && rapid.IntRange(0, 7).Draw(t, "reissueLimit?") == 0 {
 				// governance passes the very same limit again (same amount, period and exemptions) in the middle of a
@@ -317,6 +333,9 @@ func TestC15_TaxAndLimits(t *testing.T) {
 		}
 		if limitReissued {
 			labels = append(labels, "limitReissuedMidHistory")
+		}
+		if batchTimedOut {
+			labels = append(labels, "batchBuiltAndTimedOut")
 		}
 		evid.Case(t.Name(), fmt.Sprintf("rate=%s exT=%d limit=%v %s/%s exL=%d | %s", rateStr, taxExempt, hasLimit, limit, period, limitExempt, strings.Join(log, " ")), fracTax || edgeSend || failBetween, labels, func() any {
 			return map[string]any{"rate": rateStr, "limit": fmt.Sprintf("%v %s per %s", hasLimit, limit, period), "history": log}
